@@ -44,6 +44,36 @@ chk("C19", "exploration",
     "Independent oracle: the exact order statistic of a sorted copy of the recorded multiset bounds every quantile, Min and Max within one bucket width; counts conserved; Export/Import and Merge round trips; boundary-directed shapes and values; any panic is a violation.",
     TB, "runtime monitoring: exact order-statistic oracle over boundary-directed generated histograms", "DESIGN.md §5 C19")
 
+DQ = " Liveness clauses are decided only at quiescence of timer-free scenarios (goroutine census); a watchdog expiry without quiescence is INCONCLUSIVE, never a verdict."
+chk("C01", "exploration",
+    "Exactly-once monitor: unique ids through 15 fan-out/fan-in constructs under speed profiles and GOMAXPROCS regimes; multiset(invocations)=multiset(output)=input, exact sequence for Buffer/single worker.",
+    TB + DQ, "runtime monitoring: conservation / exactly-once oracle over recorded invocation and output events", "DESIGN.md §5 C01")
+chk("C03", "fault_enumeration",
+    "Fault enumeration: the whole classification table (3 flags x ExcludedErrors x 12 failure kinds) for 5 constructs is enumerated in every run; positions, workers, collectors, speeds are drawn per cell. Oracle from the statement: reported iff reportable (errors.Is), exactly-once in continue modes, abort bound by stamps.",
+    TB + " An abort-bound exceedance is confirmed by re-execution before it is reported (the first-failure stamp is taken inside the user function)." + DQ,
+    "runtime monitoring: fault injection over an enumerated configuration table with event-stamp oracles", "DESIGN.md §5 C03")
+chk("C04", "exploration",
+    "Leak / termination monitor: construct x cut point x stop mode scenarios, one per process at a time; after the stop the process is brought to quiescence and the goroutine census must hold no goroutine of the module; batch mode amortises the census over 150 early-stopped pipelines to reach rare sender races.",
+    TB + DQ, "runtime monitoring: goroutine census at quiescence (deadlock/leak detector)", "DESIGN.md §5 C04")
+chk("C07", "exploration",
+    "Deadlock-at-quiescence monitor for every blocking Queue/Deque operation: parked operations + stimulus scripts; at quiescence an operation whose condition holds (non-empty / room / closed / cancelled) and is still parked can never return; hook scenarios land cancel/enabling op/Close inside the check-then-park window.",
+    TB + DQ, "runtime monitoring: goroutine census at quiescence + build-tag yield-point scripting", "DESIGN.md §5 C07")
+chk("C08", "exploration",
+    "Broker delivery monitor: published/received id sequences per subscriber; subset + no-duplicate for every configuration, completeness for lossless ones (decided at quiescence), per-publisher and common order with one dispatch worker; delays injected in a wrapping distributor.",
+    TB + DQ, "runtime monitoring: exactly-once / ordering oracle over recorded publish and receive events", "DESIGN.md §5 C08")
+chk("C09", "exploration",
+    "Broker progress/shutdown monitor with a counting distributor: progress under bursts for every back-end, shutdown at four stop points (Wait returns, no broker goroutine in the census, calls honour cancellation), Stats calls whose context ends between request and reply, Stop inside the dispatcher's wait window (hook).",
+    TB + DQ, "runtime monitoring: goroutine census at quiescence + conservation counters + yield-point scripting", "DESIGN.md §5 C09")
+chk("C14", "exploration",
+    "WaitGroup monitor: happens-before stamps decide 'Wait never returns early'; quiescence decides 'every waiter is released'; hook scenarios and a spin-aligned entry race place the last Done / cancel inside Wait's check-then-park window; counter arithmetic incl. the negative-Add panic.",
+    TB + DQ, "runtime monitoring: happens-before stamp oracle + goroutine census at quiescence + yield-point scripting", "DESIGN.md §5 C14")
+chk("C15", "exploration",
+    "Wrapper-contract monitor: execution counter, max-concurrency gauge and end stamps inside the wrapped function; Once/Limit/Lock flavours under contention, Retry against scripted outcomes, hook/Join order logs, waiter-vs-background stamps for Launch/Signal/Background/StartGroup.",
+    TB + DQ, "runtime monitoring: counters, concurrency gauge and happens-before stamps inside the wrapped function", "DESIGN.md §5 C15")
+chk("C20", "exploration",
+    "Iterator monitor: controller scripts interleave iterator steps (own goroutine, may park) with add/remove/close/cancel; sequence oracle (only added ids, no duplicates, exact order absent removals, EOF after Close); a step that must return and has not is decided at quiescence; hook scenarios land Add/cancel/remove-then-add inside the tail-check-then-park window.",
+    TB + DQ, "runtime monitoring: sequence oracle + goroutine census at quiescence + yield-point scripting", "DESIGN.md §5 C20")
+
 ALL = ["C%02d" % i for i in range(1, 21)]
 pending = "monitor for this property is not built yet in this revision of /verif (planned in DESIGN.md §5); nothing is claimed for it"
 manifest = dict(
